@@ -57,6 +57,8 @@ def valid_doc(r, f):
                 d.append(r.choice(["日本語", "x\U0001F600y", "é"]))
         if f in ("json", "json5"):
             return json.dumps(d, ensure_ascii=r.random() < 0.5, indent=r.choice([None, None, 1])).encode("utf-8")
+        if f == "plist":
+            return plistlib.dumps(d)          # the XML (text) form: binary plists are not a text format
         return formats.write(f, d)
     x = families.gen_xml(r)
     if r.random() < 0.5:
